@@ -25,6 +25,7 @@ type Profile struct {
 	FaultPct   int     // share of txs with a tx-level fault
 	NodeFaults bool
 	Queries    int // query-noise items per block (upper bound)
+	HoldPct    int // share of checked txs that are admitted and then left in the mempool
 	Noise      int // calls on the non-consensus ABCI surfaces of the reference per block (upper bound)
 	Export     bool
 }
@@ -40,6 +41,7 @@ func profileFor(prop string, tier string) *Profile {
 		p.MaxBlocks = 120
 	}
 	p.Noise = 2
+	p.HoldPct = 4
 	switch prop {
 	case "C01":
 		p.Replicas, p.NodeFaults = 2, true
@@ -57,6 +59,7 @@ func profileFor(prop string, tier string) *Profile {
 	case "C06":
 		p.W = map[string]int{"wrk": 25, "bcn": 25, "ent": 10, "gov": 5, "bank": 3, "multi": 10, "nest": 6}
 		p.CheckPct = 100
+		p.HoldPct = 10
 		p.Dt = dtShort
 	case "C07", "C08", "C09":
 		p.W = map[string]int{"wrk": 30, "bcn": 30, "gov": 4, "multi": 6, "nest": 3, "bank": 1}
@@ -304,6 +307,10 @@ func (g *Gen) NextBlock(w *World, bi int) (BlockSpec, bool) {
 			}
 			if g.pct(g.P.CheckPct) {
 				ts.Check = true
+				if !inTail && !ts.SimOnly && g.pct(g.P.HoldPct) {
+					// tx.drop: admitted, then left in the mempool (no proposer includes it)
+					ts.CheckOnly = true
+				}
 			}
 			b.Txs = append(b.Txs, ts)
 		}
